@@ -113,7 +113,9 @@ class C03(Check):
         targets = []
         for j in range(rng.randrange(1, 4)):
             orb = gen.draw_orbit(rng, rng.choice(["leo", "meo", "geo", "heo", "xgeo"]), emax=0.7)
-            plat = {} if rng.random() < 0.4 else {"mass": rng.choice([2.0, 50.0, 500.0, 4000.0]), "visual_cross_section": rng.choice([0.1, 5.0, 60.0, 200.0]), "reflectivity": rng.choice([0.1, 0.21, 0.9])}
+            # always explicit: the defaults depend on the altitude band of the *initial* state, so a scenario started a step later from the copied
+            # states would silently get another mass / area (and another radiation pressure) - not what the shifted-start relation is about
+            plat = {"mass": rng.choice([2.0, 50.0, 500.0, 4000.0]), "visual_cross_section": rng.choice([0.1, 5.0, 60.0, 200.0]), "reflectivity": rng.choice([0.1, 0.21, 0.9])}
             targets.append(gen.eci_target(10001 + j, orb["pos"], orb["vel"], **plat))
         lat, lon, alt = gen.draw_site(rng)
         sensors = [gen.ground_sensor(90001, lat, lon, alt, gen.sensor_block("adv_radar", coarse=True, field_of_view={"fov_shape": "conic", "cone_angle": 60.0}))]
